@@ -3,11 +3,12 @@
 from vlib import *
 
 IMPL = ("Begin", "Lookup", "InsertPipeEntry", "SockOpenOk", "NewConnOk", "RegisterOutgoing", "SinkWriteOk",
-        "SinkWriteErr", "Return", "ReadReply", "RegisterIncoming", "DnsDone", "DnsConnClosed", "SockErrRead",
+        "SinkWriteErr", "MetricOut", "MetricIn", "Return", "ReadReply", "RegisterIncoming", "DnsDone", "DnsConnClosed", "SockErrRead",
         "ReadClose", "Tick", "Expire", "ExpireConnClosed", "TickEnd")
-ENV = ("EnvDgram", "EnvReply", "EnvDown", "EnvUp", "IcmpLands", "EnvClose", "Adv")
+ENV = ("EnvDgram", "EnvReply", "EnvDown", "EnvUp", "IcmpLands", "EnvClose", "Adv", "EnvStall", "EnvResume")
 WITNESS = ("WFreshAfterExpiry", "WExpireSeveral", "WDnsReleaseOthersLive", "WSendErrOthersLive",
-           "WErrReadOthersLive", "WSentAfterError", "WReplyWhileLeftParked", "WLastSurvivesTick")
+           "WErrReadOthersLive", "WSentAfterError", "WReplyWhileLeftParked", "WLastSurvivesTick",
+           "WReplyDroppedByClient", "WDnsDoneThoughDropped")
 # flows {1,2,3}: the mirror pair + the DNS flow; flows {3,4,5}: DNS, a second flow of the same client, the unconnectable one
 MC_RUNS = {
     False: [("MCUdpMux.quick.cfg", IMPL + ENV + WITNESS + ("WExpireWhileMirrorLives",)),
@@ -16,7 +17,8 @@ MC_RUNS = {
            ("MCUdpMux.thorough2.cfg", IMPL + ENV + WITNESS + ("SockOpenErr", "NewConnErr", "WConnErrOthersLive"))],
 }
 # what the executions of the real multiplexer must have exercised (counters of the harness)
-MUST_SEE = ("expired_flows", "dns_done", "socket_errors_read", "send_errors_any", "connect_errors", "client_got", "peer_got")
+MUST_SEE = ("expired_flows", "dns_done", "socket_errors_read", "send_errors_any", "connect_errors", "client_got", "peer_got",
+            "client_dropped", "metric_out", "metric_in")
 
 
 def sig_of(lines, run_start, k):
@@ -27,7 +29,7 @@ def sig_of(lines, run_start, k):
             return "-"
         r = json.loads(lines[i])
         parts = [r.get("ev", "?")]
-        for f in ("cause", "hit", "ok", "stage", "found", "done", "closed", "alive"):
+        for f in ("cause", "hit", "ok", "stage", "found", "done", "closed", "alive", "dir", "sent"):
             if f in r:
                 parts.append("%s=%s" % (f, str(r[f]).lower()))
         if r.get("ev") == "Obs":
@@ -38,21 +40,26 @@ def sig_of(lines, run_start, k):
 
 def selftest(ctx, trace):
     """The trace specification must reject a recorded execution in which the forwarder was told
-    about an expiry with the wrong key orientation, and one in which a datagram changes flow."""
+    about an expiry with the wrong key orientation, one in which a datagram changes flow, and one in which
+    the byte counter callback reports one byte more than the datagram had."""
     lines = open(trace).read().splitlines()
     starts = [i for i, l in enumerate(lines) if '"ev":"Start"' in l] + [len(lines)]
     done = set()
     for a, b in zip(starts, starts[1:]):
         run = lines[a:b]
         for kind, pred in (("orientation", lambda r: r.get("ev") == "SockClose" and r.get("cause") == "closed" and r.get("found")),
-                           ("label", lambda r: r.get("ev") == "ClientGot")):
+                           ("label", lambda r: r.get("ev") == "ClientGot"),
+                           ("metric", lambda r: r.get("ev") == "Metric" and r.get("dir") == "in")):
             if kind in done:
                 continue
             idx = [i for i, l in enumerate(run) if pred(json.loads(l))]
             if not idx:
                 continue
             r = json.loads(run[idx[0]])
-            r["s"], r["d"] = r["d"], r["s"]
+            if kind == "metric":
+                r["n"] += 1
+            else:
+                r["s"], r["d"] = r["d"], r["s"]
             bad = run[:idx[0]] + [json.dumps(r, separators=(",", ":"))] + run[idx[0] + 1:]
             p = os.path.join(ctx.work, "selftest.%s.ndjson" % kind)
             with open(p, "w") as f:
@@ -65,10 +72,10 @@ def selftest(ctx, trace):
                 raise ToolError("self-test: UdpMuxTrace accepted (or misplaced the rejection of) a trace with a corrupted %s (see %s)" % (kind, s["out"]))
             ctx.tlc_runs.pop()      # not evidence about the code
             done.add(kind)
-        if len(done) == 2:
-            ctx.log("self-test ok: UdpMuxTrace rejected both corrupted traces at the corrupted line (the two ERROR lines above are expected)")
+        if len(done) == 3:
+            ctx.log("self-test ok: UdpMuxTrace rejected the three corrupted traces at the corrupted line (the ERROR lines above are expected)")
             return
-    raise ToolError("self-test: no recorded run contains an expiry and a reply")
+    raise ToolError("self-test: no recorded run contains an expiry, a reply and a counted reply")
 
 
 def run(ctx):
@@ -120,15 +127,17 @@ def run(ctx):
                  "TLC simulated from UdpMux.tla over five flows (mirror pair, port-53 flow, same-destination flow, unconnectable "
                  "destination) or that a seeded generator produced; peers are real loopback UDP sockets. Every hook event under the two "
                  "table locks, every operation and every observation (datagrams at the peers and at the downstream sink with their "
-                 "labels, gauge, /proc/self/fd count, exchange() alive) is one trace line, and the whole trace must be a behaviour of "
+                 "labels, every update_metrics callback, gauge, running byte totals, /proc/self/fd count, exchange() alive) is one trace line, and the whole trace must be a behaviour of "
                  "UdpMux.tla with Routing/Isolation/TablesAgree/GaugeExact/BoundedSockets/ExpiryReleases/NoEarlyExpiry/DnsReleased/"
-                 "FlowErrorsAreLocal true in every state. Non-trivial = the run saw an expiry, a DNS release, a socket/connect/send "
+                 "FlowErrorsAreLocal/MetricsEqualDelivered true in every state; the downstream sink answers Dropped while the client is stalled "
+                 "(operations Stall/Resume) and a Metric line is accepted only directly after a write the sink answered Sent. Non-trivial = the run saw an expiry, a DNS release, a socket/connect/send "
                  "error; distinct by event-name sequence."),
     }
     return ctx.finish("model_checking", cov, assumptions=[
-        "bounded model: 3 flows per exhaustive configuration (two configurations), T = 4 ticks, <= 4 (quick) / 5 (thorough) environment operations, horizon 6 / 7 ticks, <= 2 queued datagrams",
+        "bounded model: 3 flows per exhaustive configuration (two configurations), T = 4 ticks, <= 4 (quick) / 5 (thorough) environment operations, horizon 6 ticks, <= 2 queued datagrams",
         "time does not advance while the left pipe is parked in the first send on a fresh socket (one reactor turn); a tick cancelling that send is not explored",
-        "the downstream sink of the harness is always ready; the downstream source is cancel-safe",
+        "the downstream sink of the harness never blocks (it answers Sent, or Dropped while the client is stalled); the downstream source is cancel-safe",
+        "byte counters are observed at the pipe's update_metrics callback (the closure Tunnel passes); the mapping of that callback to the Prometheus series is C16's",
         "an ICMP port-unreachable is modelled as a pending socket error that the next send or the next read of that socket meets (Linux semantics on loopback)",
         "SOCKS5 datagram transceiver: only the orientation contract of on_connection_closed/UdpClose is checked (unit level)",
         "trusted: TLC, the loopback peers and the address->name projection of the harness, the verif::udp door",
